@@ -67,20 +67,21 @@ func (fr *Frame) callFn(st *State, site ssa.Instruction, fn *ssa.Function, args 
 		fr.anchorCallPre(st, fn)
 	}
 	var res Value
+	// methods of abstract (ring-element) types are interpreted by their ring meaning
+	if r, ok := fr.ringCall(st, fn, args); ok {
+		if fr.top {
+			fr.anchor(st, "call", fn.Name(), -1)
+		}
+		return r
+	}
 	if c := v.lookupContract(fn); c != nil && c.Options["inline"] == "" && !(fr.top && fr.fn == fn) {
-		if v.ringLayer(c) == (len(v.abstract) > 0) || c.Assumed != "" || true {
+		if v.layerKeyOf(fn.Pkg, c) == v.curLayerKey {
 			res = fr.applyContract(st, site, c, fn, args)
 			if fr.top {
 				fr.anchor(st, "call", fn.Name(), -1)
 			}
 			return res
 		}
-	}
-	if r, ok := fr.ringCall(st, fn, args); ok {
-		if fr.top {
-			fr.anchor(st, "call", fn.Name(), -1)
-		}
-		return r
 	}
 	if len(fn.Blocks) == 0 {
 		unsup("call to %s: no Go body and no contract", key)
@@ -152,6 +153,21 @@ func (fr *Frame) applyContract(st *State, site ssa.Instruction, c *Contract, fn 
 	vars := map[string]Value{}
 	for i, p := range fn.Params {
 		vars[p.Name()] = args[i]
+	}
+	if len(fn.Params) == 0 && len(args) > 0 {
+		// body-less (assembly) function: parameter names come from the declaration's signature
+		k := 0
+		if r := fn.Signature.Recv(); r != nil {
+			vars[r.Name()] = args[0]
+			k = 1
+		}
+		ps := fn.Signature.Params()
+		for i := 0; i < ps.Len() && k+i < len(args); i++ {
+			vars[ps.At(i).Name()] = args[k+i]
+		}
+	}
+	for i := range args {
+		vars[fmt.Sprintf("arg%d", i)] = args[i]
 	}
 	se := &SpecEnv{fr: fr, st: st, old: st, vars: vars, pkg: fn.Pkg, fn: fn}
 	short := fn.Name()
@@ -230,6 +246,9 @@ func (fr *Frame) applyContract(st *State, site ssa.Instruction, c *Contract, fn 
 		}
 	}
 	for _, e := range c.Ensures {
+		if e.Name == "result" && res.Len() == 0 {
+			continue
+		}
 		st.pc = F.And(st.pc, se2.evalBool(e.E))
 	}
 	if c.Assumed != "" {
